@@ -155,6 +155,8 @@ def h06c(c, U=3):
 
 HARNESSES = [
     Harness("H06c", h06c, quick=dict(U=3), thorough=dict(U=4), pattern="P3 with symbolic time", requires=["run", "executed"]),
+    Harness("H06a-1", h06a, quick=dict(r=1, v=2, s=1), thorough=dict(r=1, v=3, s=1), pattern="P2 inductive step", requires=["lone", "fill", "unchanged-ladder"],
+            outside=["order and traded prices outside {1.5, 2.0, 2.5, 3.0}"]),
     Harness("H06a", h06a, quick=dict(r=2, v=2, s=2), thorough=dict(r=3, v=2, s=2), pattern="P2 inductive step", requires=["lone", "group", "priority", "fill", "unchanged-ladder"],
             wall_s=(300, 3000), max_paths=(300000, 5000000),
             outside=["simulation_available_prices=True (documented double-counting mode, excluded by the property)", "more than r resting orders / v traded price levels per update",
